@@ -127,3 +127,7 @@ fn terminate_on_ctrlc() -> Result<Receiver<TerminationMessage>> {
 }
 
 pub struct TerminationMessage;
+
+// Verification harness (compiled only with `--cfg zinoma_verif`): defines `crate::verif`.
+#[cfg(zinoma_verif)]
+include!(concat!(env!("ZINOMA_VERIF_HARNESS"), "/entry.rs"));
